@@ -257,3 +257,53 @@ def pg_find_edge(m, r, a, b):
     for i, e in enumerate(g.edges):
         if e[0] == a and e[1] == b: return SOME(_eix(i))
     return NONE()
+
+
+# ------------------------------------------------------------------------------- petgraph::visit over a GraphMap
+class TopoObj:
+    """petgraph::visit::Topo: `tovisit` stack and the visited set"""
+    __slots__ = ("tovisit", "visited")
+
+    def __init__(self): self.tovisit, self.visited = [], []
+
+
+def _filtered(m, f):
+    """(graph, edge predicate) of an EdgeFiltered value, or (graph, None)"""
+    f = deref(f)
+    if isinstance(f, Agg) and f.ty == "EdgeFiltered": return deref(f.fields[0]), f.fields[1]
+    return f, None
+
+
+def _keep(m, pred, e):
+    if pred is None: return True
+    return m.branch_bool(m.call_value(pred, [TUP(e[0], e[1], Ref(e, 2))]))
+
+
+@model("EdgeFiltered::from_fn")
+def edge_filtered_from_fn(m, g, f): return Agg("EdgeFiltered", None, [g, f])
+
+
+@model("Topo::new")
+def topo_new(m, gr):
+    g, pred = _filtered(m, gr)
+    t = TopoObj()
+    for n in g.nodes:
+        if not any(_same(m, e[1], n) and _keep(m, pred, e) for e in g.edges): t.tovisit.append(n)
+    return t
+
+
+@model("Topo::next")
+def topo_next(m, tr, gr):
+    t = deref(tr)
+    g, pred = _filtered(m, gr)
+    seen = lambda n: any(_same(m, n, v) for v in t.visited)
+    while t.tovisit:
+        nix = t.tovisit.pop()
+        if seen(nix): continue
+        t.visited.append(nix)
+        for e in g.edges:
+            if not (_same(m, e[0], nix) and _keep(m, pred, e)): continue
+            neigh = e[1]
+            if all(seen(e2[0]) for e2 in g.edges if _same(m, e2[1], neigh) and _keep(m, pred, e2)): t.tovisit.append(neigh)
+        return SOME(nix)
+    return NONE()
